@@ -69,6 +69,9 @@ func main() {
 	for i := 0; i < nFault; i++ {
 		jobs = append(jobs, job{"fault", i, false})
 	}
+	for i := 0; i < c.Pick(4, 40); i++ { // series ids under a small series limit
+		jobs = append(jobs, job{"limits", i, false})
+	}
 	scratch := c.Scratch()
 	results := make([]*caseResult, len(jobs))
 	raceOut := make([]string, len(jobs))
